@@ -299,7 +299,7 @@ impl<S: RSSupport> RankQuad for RSQVector<S> {
     /// ```
     #[inline(always)]
     fn rank(&self, symbol: u8, i: usize) -> Option<usize> {
-        if i > self.qv.len() {
+        if symbol > 3 || i > self.qv.len() {
             return None;
         }
         // Safety: The check above guarantees we are not out of bound
